@@ -100,7 +100,7 @@ LocsOf(k) == CASE k = "pub2" -> {"atRLock", "waitAck", "waitComp"}
                [] k = "disconnect" -> {"atRLock", "handlerBusy", "fromHandler"}
                [] k = "rconnect" -> {"dialFailing", "waitConnack"}
                [] OTHER -> {"loopDialing", "loopConnected"}
-Causes == {"ctxCancel", "ctxDeadline", "localClose", "peerClose", "malformed", "deadTransport"}
+Causes == {"ctxCancel", "ctxDeadline", "localClose", "peerClose", "malformed", "deadTransport", "otherDisconnect"}
 Applicable(k, l, cause) ==
   /\ (k = "rdisconnect" => cause = "none")
   /\ (k = "rconnect" => cause \in {"ctxCancel", "ctxDeadline"})
@@ -111,12 +111,14 @@ Applicable(k, l, cause) ==
   /\ (l \in {"handlerBusy", "fromHandler"} => cause \in {"ctxCancel", "ctxDeadline"})
   \* the transport dies while CONNECT is being written: Connect fails, and the connection has ended (Done() closed)
   /\ (l = "connectWrite" <=> cause = "deadTransport")
+  \* another goroutine calls Disconnect while the call waits for its acknowledgement (a local end of the connection)
+  /\ (cause = "otherDisconnect" => (l \in {"waitAck", "waitComp"} /\ k \in {"pub1", "pub2", "sub", "unsub", "ping"}))
 Cases == {[k |-> k, l |-> l, cause |-> cause,
            \* what the statement demands: the call returns; with which error class; is Done() closed afterwards
            \* (Disconnect has no waiting location of its own besides the lock: with the handler busy it simply returns)
            cls |-> CASE k = "disconnect" /\ l \in {"handlerBusy", "fromHandler"} -> "any"
                      [] cause = "ctxCancel" -> "canceled" [] cause = "ctxDeadline" -> "deadline" [] cause = "none" -> "any" [] OTHER -> "error",
-           done |-> cause \in {"localClose", "peerClose", "malformed", "deadTransport"}] :
+           done |-> cause \in {"localClose", "peerClose", "malformed", "deadTransport", "otherDisconnect"}] :
           k \in Kinds, l \in UNION {LocsOf(x) : x \in Kinds}, cause \in Causes \cup {"none"}}
 CaseSet0 == {x \in Cases : x.l \in LocsOf(x.k) /\ Applicable(x.k, x.l, x.cause) /\ (x.cause = "none" <=> x.k = "rdisconnect")}
 \* benign broker traffic that precedes the call on the established connection and concerns nobody: an unsolicited
